@@ -31,9 +31,9 @@ _cache = {}
 
 def templates(ctx):
     """[(expander name, sizes, oracle, element list)] for every expander, size assignment and path."""
-    key = (id(ctx.tree), ctx.tier)
-    if key in _cache:
-        return _cache[key]
+    cache = ctx.tree.__dict__.setdefault("_emit2_cache", {})
+    if ctx.tier in cache:
+        return cache[ctx.tier]
     mod = ctx.tree.ast(EXP)
     names = [f.name for f in mod.body if isinstance(f, ast.FunctionDef) and f.name.startswith("_expand_")]
     if len(names) < 12:
@@ -55,7 +55,7 @@ def templates(ctx):
     ctx.stat("expanders", names)
     ctx.stat("emission_paths", len(out))
     ctx.stat("paths_ending_in_raise", raised)
-    _cache[key] = (names, out)
+    cache[ctx.tier] = (names, out)
     return names, out
 
 
